@@ -50,6 +50,25 @@ _leaf = gen.source_spec(classes=["Cuboid", "Cylinder", "Sphere", "Tetrahedron", 
 _sensor = gen.sensor_spec(max_path=4)
 
 
+_leaf_static = gen.source_spec(classes=["Cuboid", "Cylinder", "Sphere", "Tetrahedron", "TriangularMesh", "Triangle",
+                                        "Circle", "Polyline", "Dipole", "CylinderSegment"], max_path=1, L=1.0)
+
+
+@st.composite
+def minimal_case(draw):
+    """the smallest configuration: one static source, one observer point (the code has fast paths for it)"""
+    k = draw(st.sampled_from(["array", "array", "sensor"]))
+    if k == "array":
+        obs = {"cls": "array", "value": [draw(gen.ufloat(-3, 3)) for _ in range(3)], "as": draw(st.sampled_from(["ndarray", "list", "tuple"]))}
+    else:
+        obs = {"cls": "Sensor", "pixel": None, "handedness": "right", "position": [[draw(gen.ufloat(-3, 3)) for _ in range(3)]],
+               "orientation": [draw(gen.quaternion())], "path_kind": "static"}
+    return {"form": "oo", "iface": draw(st.sampled_from(["top", "src_method", "sens_method" if k == "sensor" else "top"])),
+            "sources": [draw(_leaf_static)], "observers": [obs], "field": draw(st.sampled_from(FIELDS)),
+            "sumup": draw(st.booleans()), "squeeze": draw(st.booleans()), "pixel_agg": None, "in_out": "auto",
+            "fault": {"kind": "none", "pos": 0, "in_coll": False, "nth": 0}, "minimal": True}
+
+
 @st.composite
 def oo_case(draw):
     n = draw(st.integers(1, 4))
@@ -138,7 +157,7 @@ def func_case(draw):
 
 
 def strategy(tier):
-    return st.one_of(oo_case(), oo_case(), oo_case(), func_case())
+    return st.one_of(oo_case(), oo_case(), oo_case(), func_case(), minimal_case())
 
 
 # ------------------------------------------------------------------------------ execution
